@@ -1509,6 +1509,7 @@ structure Wired (g1 g : LGraph) (K : List (Node × Node)) : Prop where
   pay : PayOK g
   cnodes : ∀ n, n.isCol = true → n ∈ g.nodes → n ∈ g1.nodes ∨ ∃ p ∈ K, n = p.1 ∨ n = p.2
   ewf : Paths.WF g
+  tg : ∀ n t, g.tag n t = g1.tag n t
 
 theorem wf_addLin (g : LGraph) (src tgt : Column) (tp : DS × String) (h : Paths.WF g) : Paths.WF (addLin g src tgt tp) := by
   unfold addLin
@@ -1518,8 +1519,15 @@ theorem wf_addLin (g : LGraph) (src tgt : Column) (tp : DS × String) (h : Paths
   | none => exact t2
   | some sp => exact Paths.wf_addEdge _ _ _ _ _ _ _ t2
 
+theorem tag_addLin (g : LGraph) (src tgt : Column) (tp : DS × String) (n : Node) (t : Tag) :
+    (addLin g src tgt tp).tag n t = g.tag n t := by
+  unfold addLin
+  cases src.parent? with
+  | none => simp only [tag_addEdge]
+  | some sp => simp only [tag_addEdge]
+
 theorem Wired.base {g1 : LGraph} {tabs : List DObj} {T : DS} (h : ReadBase g1 tabs T) : Wired g1 g1 [] := by
-  refine ⟨Frame.refl g1, ?_, ?_, h.ty, h.pay, fun n _ hn => Or.inl hn, h.wf.edges⟩
+  refine ⟨Frame.refl g1, ?_, ?_, h.ty, h.pay, fun n _ hn => Or.inl hn, h.wf.edges, fun _ _ => rfl⟩
   · intro u v hu
     constructor
     · intro he
@@ -1531,7 +1539,7 @@ theorem Wired.base {g1 : LGraph} {tabs : List DObj} {T : DS} (h : ReadBase g1 ta
 theorem Wired.congr {g1 g : LGraph} {K K' : List (Node × Node)} (h : Wired g1 g K) (hk : ∀ x, x ∈ K ↔ x ∈ K') :
     Wired g1 g K' := by
   refine ⟨h.frame, fun u v hu => (h.lin u v hu).trans (hk _), fun u v hu hv => (h.own u v hu hv).trans ?_, h.ty, h.pay,
-    fun n hn hm => (h.cnodes n hn hm).imp id (fun ⟨p, hp, x⟩ => ⟨p, (hk p).mp hp, x⟩), h.ewf⟩
+    fun n hn hm => (h.cnodes n hn hm).imp id (fun ⟨p, hp, x⟩ => ⟨p, (hk p).mp hp, x⟩), h.ewf, h.tg⟩
   rw [mem_specOwners, mem_specOwners]
   constructor
   · rintro (h1 | ⟨p, hp, x⟩)
@@ -1545,7 +1553,8 @@ theorem Wired.step {g1 g : LGraph} {K : List (Node × Node)} (h : Wired g1 g K) 
     (htp : tgt.parent? = some tp) (hs : colOK src) (ht : colOK tgt) :
     Wired g1 (addLin g src tgt tp) (K ++ [(src.key, tgt.key)]) := by
   refine ⟨h.frame.trans (frame_addLin g src tgt tp), ?_, ?_, typed_addLin g src tgt tp h.ty,
-    payOK_addLin g src tgt tp h.pay hs ht, ?_, wf_addLin g src tgt tp h.ewf⟩
+    payOK_addLin g src tgt tp h.pay hs ht, ?_, wf_addLin g src tgt tp h.ewf,
+    fun n t => (tag_addLin g src tgt tp n t).trans (h.tg n t)⟩
   rotate_left 2
   · intro n hn hm
     rcases mem_nodes_addLin g src tgt tp n hm with h1 | h1 | h1 | h1
